@@ -259,7 +259,7 @@ def lean_phase(prop, tier, log):
             rce2, oute2 = sh(['lake', 'build', 'Sm9.Gen.Equiv'], cwd=LEAN, timeout=3600)
             if rce2 == 0:
                 rce = 0
-                write_audit(prop, thms, [n for n in equiv_names if n not in equiv_failed])
+                pass
             else:
                 for n in res['translator'].get('theorems', []):
                     equiv_failed.setdefault(n, 'Equiv.lean does not build even without the failing theorems')
@@ -294,7 +294,7 @@ def lean_phase(prop, tier, log):
                         if n not in limb_failed and any(d in limb_failed for d in ds):
                             limb_failed[n] = 'rests on ' + next(d for d in ds if d in limb_failed) + ', which no longer checks'
                             grow = True
-            write_audit(prop, thms, [n for n in equiv_names if n not in equiv_failed], with_equiv=(rce == 0), limb_names=limb_names, with_limb=False)
+            pass
     rc, out = sh(['lake', 'build', f'Sm9.Props.{prop}'], cwd=LEAN, timeout=7200)
     log.append(('lake build', f'{time.time()-t0:.1f}s rc={rc} equiv_rc={rce} limb_rc={rcl}'))
     failed_lines = []
@@ -306,9 +306,9 @@ def lean_phase(prop, tier, log):
                 failed_lines.append((m.group(1), int(m.group(2)), m.group(4)))
         res['errors'].append('\n'.join(l for l in out.splitlines() if l.startswith('error'))[:3000])
     axioms = {}
-    if rc == 0 and rce != 0:
-        # audit the property theorems alone when the generated equivalences do not build
-        write_audit(prop, thms, (), with_equiv=False, limb_names=limb_names, with_limb=(rcl == 0))
+    # the audit file lists exactly what was built: a file that did not build cannot be imported
+    write_audit(prop, thms, [n for n in equiv_names if n not in equiv_failed] if rce == 0 else (), with_equiv=(rce == 0),
+                limb_names=limb_names, with_limb=(rcl == 0))
     if rc == 0:
         rc2, out2 = sh(['lake', 'env', 'lean', os.path.join('Sm9', 'Audit', prop + '.lean')], cwd=LEAN, timeout=1800)
         for m in re.finditer(r"'([^']+)' depends on axioms: \[([^\]]*)\]", out2):
